@@ -11,5 +11,5 @@ cd /verif
 for p in "$@"; do
   out=$(VERIF_REPO=$wt VERIF_DIR=/verif VERIF_EVIDENCE_DIR=$wt.ev ${VCHECK:-bin/vcheck} $p --tier $tier 2>&1); rc=$?
   # keep the unchanged tree's evidence: checks against a mutant must not overwrite committed evidence
-  echo "$name $p tier=$tier exit=$rc $(echo "$out" | grep -c '^VIOLATION') violations; first: $(echo "$out" | grep -m1 'witness:' | cut -c1-220)"
+  echo "$name $p tier=$tier exit=$rc $(echo "$out" | grep -c '^VIOLATION') violations; first: $(echo "$out" | grep -m1 'witness:' | cut -c1-220)$(echo "$out" | grep -m1 'INFRA-ERROR' | cut -c1-400)"
 done
